@@ -20,8 +20,11 @@
 
    Every access through an address whose node is freed / was never allocated,
    every NULL dereference, every free of something that is not a live calloc'ed
-   node, and every use of a cell at the wrong type is an explicit error value
-   (`Bad e`), never a default.
+   node, every use of a cell at the wrong type, every shift of an int whose
+   behaviour C leaves undefined (count < 0 or >= 32, `1 << c` not representable)
+   and every signed overflow of ++num_timers / 2 * index is an explicit error
+   value (`Bad e`), never a default.  The other int computations of the file
+   (index / 2, num_timers--, (rat_depth + 1) * 7, ...) cannot leave the range.
 
    The rest of struct iv_state and the timer objects (num_timers, rat_depth,
    numobjs, time, expires/index of every timer, the local `timers` batch) are
@@ -49,6 +52,8 @@ Inductive rerr : Type :=
 | EBadFree                 (* free() of first_leaf or of something never allocated *)
 | EDoubleFree
 | EType                    (* a timer pointer used as a node pointer or vice versa *)
+| EShift                   (* `x >> c` with c < 0 or c >= 32, or `1 << c` not representable, on a 32-bit int *)
+| EOverflow                (* signed overflow of an int computation (++num_timers, 2 * index) *)
 | EFuel.                   (* a loop bound of the model exhausted (never: see proofs) *)
 
 Inductive rres (A : Type) : Type :=
@@ -149,6 +154,31 @@ Definition free_node (rs : rstate) (n : Z) : rres rstate :=
   | _ => Bad EBadFree
   end.
 
+(* ---- C int arithmetic where it can leave the range: explicit undefined behaviour ---- *)
+Definition INT_BITS : Z := 32.                     (* 8 * sizeof(int) *)
+Definition INT_MAX : Z := 2 ^ 31 - 1.
+
+(* x >> c on a non-negative int *)
+Definition shr_int (x c : Z) : rres Z :=
+  if (0 <=? c) && (c <? INT_BITS) then Good (Z.shiftr x c) else Bad EShift.
+(* 1 << c *)
+Definition shl1_int (c : Z) : rres Z :=
+  if (0 <=? c) && (c <? INT_BITS - 1) then Good (Z.shiftl 1 c) else Bad EShift.
+(* the value of a non-negative int expression *)
+Definition chk_int (x : Z) : rres Z :=
+  if x <=? INT_MAX then Good x else Bad EOverflow.
+
+(* the growth test of iv_timer_get_node (since commit 3da677a):
+     (st->rat_depth + 1) * IV_TIMER_SPLIT_BITS < 8 * (int)sizeof(index) &&
+     index >> ((st->rat_depth + 1) * IV_TIMER_SPLIT_BITS) != 0
+   with the short-circuit of && ; Timer/RadixLink.v proves that this is the function that
+   gen/c2gallina.py extracts from the C source on every run (Gen/LeafTimer.v, timer_growth_test) *)
+Definition grow_test (d index : Z) : rres bool :=
+  if (d + 1) * SPLIT_BITS <? 8 * 4 then
+    do v <- shr_int index ((d + 1) * SPLIT_BITS);
+    Good (negb (v =? 0))
+  else Good false.
+
 Definition rdepth (rs : rstate) : Z := depth (hs rs).
 Definition rnum (rs : rstate) : Z := num (hs rs).
 Definition rset_depth (rs : rstate) (d : Z) : rstate := set_hs rs (set_depth (hs rs) d).
@@ -166,7 +196,8 @@ Fixpoint walk (fuel : nat) (rs : rstate) (r : Z) (i : Z) (index : Z) : rres (rst
   match fuel with
   | O => Bad EFuel
   | S f =>
-      let bits := Z.land (Z.shiftr index (i * SPLIT_BITS)) (NODES - 1) in
+      do sh <- shr_int index (i * SPLIT_BITS);
+      let bits := Z.land sh (NODES - 1) in
       do c <- load_node rs (r * NODES + bits);
       match c with
       | Some n => walk f rs n (i - 1) index
@@ -180,8 +211,9 @@ Fixpoint walk (fuel : nat) (rs : rstate) (r : Z) (i : Z) (index : Z) : rres (rst
 (* iv_timer_get_node(st, index): returns the state (the tree may have grown by
    one level and interior nodes may have been allocated) and the slot ADDRESS *)
 Definition rget_node (rs : rstate) (index : Z) : rres (rstate * Z) :=
+  do grow <- grow_test (rdepth rs) index;
   do rs1 <-
-    (if Z.shiftr index ((rdepth rs + 1) * SPLIT_BITS) =? 0 then Good rs else
+    (if negb grow then Good rs else
        let rs1 := rset_depth rs (rdepth rs + 1) in               (* st->rat_depth++ *)
        let '(rs2, r) := alloc rs1 in                             (* r = iv_timer_allocate_ratnode() *)
        do c <- load rs2 ROOT_CELL;
@@ -268,7 +300,8 @@ Fixpoint rpush_down (fuel : nat) (rs : rstate) (index : Z) (i : Z) : rres rstate
   match fuel with
   | O => Bad EFuel
   | S f =>
-      if 2 * index <=? rnum rs then
+      do i2 <- chk_int (2 * index);                                (* 2 * index is an int *)
+      if i2 <=? rnum rs then
         do x <- rget_node rs (2 * index);
         let '(rs1, p) := x in
         do ti <- deref_timer rs1 i;                              (* *imin, imin == i *)
@@ -303,7 +336,8 @@ Definition rregister (rs : rstate) (t : id) : routcome :=
   let rs := set_hs rs (set_numobjs (hs rs) (numobjs (hs rs) + 1)) in
   let index := rnum rs + 1 in
   let rs := rset_num rs index in                                 (* index = ++st->num_timers *)
-  lift (do x <- rget_node rs index;
+  lift (do _ <- chk_int index;
+        do x <- rget_node rs index;
         let '(rs1, p) := x in
         do rs2 <- store rs1 p (CTimer t);                        (* *p = t *)
         let rs3 := rset_idx rs2 t index in
@@ -330,8 +364,10 @@ Definition runregister (rs : rstate) (t : id) : routcome :=
                   do tlast <- deref_timer rs3 p;
                   let rs3 := rset_idx rs3 tlast ix in            (* ( *p)->index = t->index *)
                   do rs3 <- store rs3 m CNull;                   (* *m = NULL *)
-                  do rs4 <- (if (0 <? rdepth rs3) && (n =? Z.shiftl 1 (rdepth rs3 * SPLIT_BITS))
-                             then rremove_level rs3 else Good rs3);
+                  do shrink <- (if 0 <? rdepth rs3                 (* && short-circuit *)
+                                then do lim <- shl1_int (rdepth rs3 * SPLIT_BITS); Good (n =? lim)
+                                else Good false);
+                  do rs4 <- (if shrink : bool then rremove_level rs3 else Good rs3);
                   let rs5 := rset_num rs4 (n - 1) in             (* st->num_timers-- *)
                   do rs7 <-
                     (if p =? m then Good rs5 else                (* if (p != m) *)
